@@ -34,7 +34,8 @@ LEVEL_TEXT = (
 )
 LEVEL_NOTE = (
     "Trusts the fake signal (synchronous subscribe/put like a soft ophyd.Signal) and the stub RE; sleep=0 only; "
-    "boundary values the docstrings leave open (v == resume_thresh, v on a band edge) accept either verdict; "
+    "boundary values the docstrings leave open (v == resume_thresh) accept either verdict; a value on a band limit is "
+    "outside the band (both classes print the band as the open range '(bottom, top)'); "
     "exploration, not proof."
 )
 RULE = (
@@ -48,7 +49,7 @@ ASSUMPTIONS = [
     "signal values are non-NaN scalars of the kind the class documents (numbers for threshold/band classes, "
     "bool/0/1 for the boolean classes, str/int/float/bool for SuspendWhenChanged)",
     "callbacks arrive one at a time from a non-loop thread (as ophyd delivers them)",
-    "at v == resume_thresh (Floor/Ceil) and at v == band edge the documentation does not decide; either verdict accepted",
+    "at v == resume_thresh (Floor/Ceil) the documentation does not decide; either verdict accepted",
     "sleep=0; pre/post plans are passed through untouched and not interpreted",
 ]
 ENGINE = "E3"
@@ -201,8 +202,8 @@ def _doc_conditions(cls, params, init):
         bot, top = params["band_bottom"], params["band_top"]
 
         def inside(v):
-            if v == bot or v == top:
-                return None
+            # the justification messages of both band classes name the band as the open range "(bottom, top)":
+            # a value on a limit is outside of it
             return bot < v < top
 
         def neg(x):
